@@ -976,6 +976,13 @@ pub fn foreign_srv_case(seed: u64, l: &mut Local) {
 // Another prober for 'x (2)' with other data must be answered (our records for the name) at once.
 
 pub fn defend_renamed_case(seed: u64, l: &mut Local) {
+    window_question_case(seed, false, l);
+}
+
+/// `plain`: the third party does not probe for the name but merely asks about it (a type-ANY question without
+/// authority records, as a resolver sends): there is nothing to defend, and a service that is not announced yet
+/// is not answered for (C07).
+pub fn window_question_case(seed: u64, plain: bool, l: &mut Local) {
     let mut rng = Rng::new(seed);
     let mut w = World::new(seed);
     w.set_stepping(Stepping::Lazy);
@@ -1010,7 +1017,9 @@ pub fn defend_renamed_case(seed: u64, l: &mut Local) {
     new_inst[0] = new_label.clone();
     let mut q = Message::query();
     q.questions.push(wire::question(&new_inst, wire::T_ANY));
-    q.authorities.push(wire::srv(&new_inst, 120, 65000, &scen::wire_name("zz-third.local.")));
+    if !plain {
+        q.authorities.push(wire::srv(&new_inst, 120, 65000, &scen::wire_name("zz-third.local.")));
+    }
     let idx = w.trace.entries.len();
     w.inject_msg(h, 2, scen::peer4(79), &q);
     w.settle();
@@ -1030,6 +1039,20 @@ pub fn defend_renamed_case(seed: u64, l: &mut Local) {
     let last_probe_new = txs.iter().filter(|tx| tx.idx < idx && tx.msg.is_query() && scen::has_question(tx.msg, &new_inst, wire::T_ANY)).map(|tx| tx.t).max().unwrap_or(0);
     let probes_new = txs.iter().filter(|tx| tx.idx < idx && tx.msg.is_query() && scen::has_question(tx.msg, &new_inst, wire::T_ANY)).count();
     if !probed_new || announced_before || probes_new < 3 || t3 < last_probe_new + 260 {
+        return;
+    }
+    if plain {
+        l.act("P3-window");
+        if let Some(tx) = txs.iter().find(|tx| tx.idx > idx && tx.t == t3 && tx.msg.is_response() && !tx.msg.answers.iter().any(|r| r.rtype == wire::T_PTR) && tx.msg.records().any(|r| wire::names_eq_nocase(&r.name, &new_inst) && matches!(r.rdata, RData::Srv { .. } | RData::Txt(_)))) {
+            // (not before its announcement - which has not happened: the host name is still waiting)
+            let announced_by_then = txs.iter().any(|a| a.idx > idx && a.idx < tx.idx && a.msg.is_response() && a.multicast && a.msg.answers.iter().any(|r| r.rtype == wire::T_PTR && r.ttl > 0));
+            if !announced_by_then {
+                l.violate(
+                    Violation::new("P3", "P3/answered-before-announcement/plain-question-while-the-host-name-waits", format!("the instance name {} had finished probing, the host name was still waiting after a lost comparison; a plain ANY question (no authority records: nobody is probing) {} ms later was answered with the service's records although nothing is announced yet", wire::escaped(&new_inst), t3 - last_probe_new))
+                        .with(json!({"trace": scen::witness_window(&w.trace, t0, tx.t + 50, 60)})),
+                );
+            }
+        }
         return;
     }
     l.act("N4-defend-renamed");
